@@ -1,8 +1,142 @@
-(* C01 - Map results equal the MapSpec denotation (statements only). *)
-From Verif Require Import Base.Prelude Base.Index Base.NdArr Model.MapSpec Model.MapRun Model.MapDenote Proofs.IndexFacts.
+(* C01 - Map results equal the MapSpec denotation (statements only; every proof is in Proofs/).
 
-(* placeholder until Proofs/MapRunFacts.v lands: the index bijection the placement relies on *)
-Theorem C01_linear_positions_bijective : forall sh,
-  map (unravel sh) (seq 0 (prod sh)) = all_indices sh /\ NoDup (all_indices sh).
-Proof. intros sh. exact (conj (unravel_enumerates sh) (all_indices_NoDup sh)). Qed.
-Print Assumptions C01_linear_positions_bijective.
+   Model/MapRun.v   : the sequential loop of Pipeline.map (linear indices, input_keys, flat-index placement, storage dump)
+   Model/MapDenote.v: the specification (pointwise denotation over full output indices)
+   All theorems hold for an ARBITRARY user-function oracle `body`, arbitrary rank and arbitrary interleaving of
+   external (mapped) and internal axes.
+
+   Auxiliary notions used in the statements (Proofs/PlaceFacts.v, Proofs/MapRunFacts.v):
+     elem v jj            element jj of a returned value (a scalar `VS x` is its own only element)
+     val_ok mask int v    what _set_output demands of one returned value: a scalar when every axis is mapped,
+                          otherwise a well-formed array of exactly the internal shape
+     target sh mask V     the array that holds at full index idx the element  int_of(idx)  of the value  V i
+                          returned at the linear index  i = ravel ext (ext_of(idx)) :
+                          map (fun idx => elem (V (ravel (ext_of mask sh) (ext_of mask idx))) (int_of mask idx)) (all_indices sh)
+     body_arity body      the oracle returns one value per output name (see the comment at its definition) *)
+From Verif Require Import Base.Prelude Base.Index Base.NdArr Model.MapSpec Model.MapSpecSpec Model.MapRun Model.MapDenote
+  Model.SymBody Proofs.IndexFacts Proofs.PlaceFacts Proofs.SelectFacts Proofs.MapRunFacts Proofs.C01Example Proofs.C01Corr.
+From Verif Require Corr.Run_C01.
+
+(* 1. placement: folding `place` (= _set_output through flat indices) over all linear indices fills the result
+      array with exactly the target; in particular every position is written and no write lands elsewhere *)
+Theorem C01_place_all : forall sh mask (V : nat -> val),
+  length mask = length sh ->
+  (forall i, i < prod (ext_of mask sh) -> val_ok mask (int_of mask sh) (V i)) ->
+  fold_left (fun acc i => do arr <- acc; place sh mask i (V i) arr)
+            (seq 0 (prod (ext_of mask sh))) (Ok (repeat none_str (prod sh)))
+  = Ok (map (fun idx => elem (V (ravel (ext_of mask sh) (ext_of mask idx))) (int_of mask idx)) (all_indices sh)).
+Proof. exact place_all. Qed.
+Print Assumptions C01_place_all.
+
+(* 2. storage: after dumping every linear index at its output key the stored array is the same target *)
+Theorem C01_sto_all : forall sh mask (V : nat -> val),
+  length mask = length sh ->
+  (forall i, i < prod (ext_of mask sh) -> val_ok mask (int_of mask sh) (V i)) ->
+  exists st,
+    fold_left (fun acc i => do st <- acc; sto_dump sh mask (unravel (ext_of mask sh) i) (V i) st)
+              (seq 0 (prod (ext_of mask sh))) (Ok []) = Ok st
+    /\ sto_array sh st = {| shp := sh; dat := target sh mask V |}.
+Proof. exact sto_all. Qed.
+Print Assumptions C01_sto_all.
+
+Example C01_example_place : (* rank 3, internal axes on both sides of the mapped axis *)
+  length [false; true; false] = length [2; 3; 2]
+  /\ (forall i, i < prod (ext_of [false; true; false] [2; 3; 2]) ->
+      val_ok [false; true; false] (int_of [false; true; false] [2; 3; 2]) (ex_V i)).
+Proof. exact ex_place_hyps. Qed.
+
+(* 3. the keyword arguments of iteration i are the arguments the notation names at position unravel ext i
+      (equality of results, i.e. including every error the slicing may raise) *)
+Theorem C01_select_kwargs_arg_at : forall ms,
+  wf_decl ms = true -> NoDup (map aname (ins ms)) -> NoDup (output_indices ms) ->
+  forall kw ext i,
+  length ext = length (external_indices ms) -> forallb (fun d => 0 <? d) ext = true ->
+  select_kwargs ms kw ext i = mapM (arg_at ms (unravel ext i)) kw.
+Proof. exact select_kwargs_arg_at. Qed.
+Print Assumptions C01_select_kwargs_arg_at.
+
+Example C01_example_select :
+  wf_decl ex_ms2 = true /\ NoDup (map aname (ins ex_ms2)) /\ NoDup (output_indices ex_ms2)
+  /\ length [3; 2] = length (external_indices ex_ms2) /\ forallb (fun d => 0 <? d) [3; 2] = true.
+Proof. exact ex_select_hyps. Qed.
+
+(* the side conditions on (sh, mask) below are consequences of MapSpec.shape having produced them *)
+Theorem C01_shape_side_conditions : forall ms ish internal sh mask,
+  wf_decl ms = true -> shape ms ish internal = Ok (sh, mask) ->
+  length mask = length sh /\ length (ext_of mask sh) = length (external_indices ms).
+Proof. exact shape_side_conditions. Qed.
+Print Assumptions C01_shape_side_conditions.
+
+(* ... and the ones on the MapSpec are consequences of func_ok *)
+Theorem C01_func_ok_side_conditions : forall f ms,
+  func_ok f = true -> fspec f = Some ms ->
+  wf_decl ms = true /\ NoDup (map aname (ins ms)) /\ NoDup (output_indices ms) /\ 0 < length (fouts f).
+Proof. exact func_ok_spec. Qed.
+Print Assumptions C01_func_ok_side_conditions.
+
+(* NOTE on `body_arity` (theorems 4-6).  FULL statement without it is false for a literally arbitrary oracle:
+   denote_mapped only reads nth_error outs j for j < #outputs, whereas run_mapped raises ValueError when
+   length outs <> #outputs; e.g. body := fun _ _ => Ok [VS "r"; VS "extra"], one function  x[i] -> y[i]  with
+   fouts = ["y"], x of shape [3]: request_ok = true, denote_run = Ok _, map_run = Err ValueError.
+   The hypothesis is a property of the oracle, which models `_pick_output(func, func( **kw))` and therefore has one
+   entry per output name by construction; every other aspect of `body` (values, errors, shapes) is arbitrary. *)
+
+(* 4. one mapped function ("map_step_denotes"): whenever the denotation is defined, the loop returns exactly the
+      denoted arrays, both as result arrays and as stored arrays, after prod(ext) calls *)
+Theorem C01_run_mapped_denotes : forall body, body_arity body ->
+  forall f ms kw sh mask,
+  wf_decl ms = true -> NoDup (map aname (ins ms)) -> NoDup (output_indices ms) -> 0 < length (fouts f) ->
+  length mask = length sh -> length (ext_of mask sh) = length (external_indices ms) ->
+  forallb (fun d => 0 <? d) sh = true ->
+  forall arrs, denote_mapped body f ms kw sh mask = Ok arrs ->
+  run_mapped body f ms kw sh mask = Ok (arrs, arrs, prod (ext_of mask sh)).
+Proof. exact run_mapped_denotes. Qed.
+Print Assumptions C01_run_mapped_denotes.
+
+Example C01_example_mapped : (* x[i] -> y[j, i] : internal axis before the mapped axis *)
+  wf_decl ex_ms1 = true /\ NoDup (map aname (ins ex_ms1)) /\ NoDup (output_indices ex_ms1)
+  /\ 0 < length (fouts ex_f1) /\ length [false; true] = length [2; 3]
+  /\ length (ext_of [false; true] [2; 3]) = length (external_indices ex_ms1)
+  /\ forallb (fun d => 0 <? d) [2; 3] = true
+  /\ shape ex_ms1 [(s "x", [3])] [(s "y", [2])] = Ok ([2; 3], [false; true])
+  /\ is_ok (denote_mapped sym_body ex_f1 ex_ms1 ex_kw1 [2; 3] [false; true]) = true.
+Proof. exact ex_mapped_hyps. Qed.
+
+(* 5. the whole run: a valid request whose denotation is defined is answered with exactly the denoted arrays,
+      returned (Result.output) AND stored *)
+Theorem C01_map_run_denotes : forall body, body_arity body ->
+  forall user p inputs d,
+  request_ok p inputs = true -> denote_run body p inputs user = Ok d ->
+  exists st, map_run body p inputs user = Ok st
+             /\ map (fun x => (fst (fst x), snd (fst x))) (r_out st) = d_out d
+             /\ map (fun x => (fst (fst x), snd x)) (r_out st) = d_out d.
+Proof. exact map_run_denotes. Qed.
+Print Assumptions C01_map_run_denotes.
+
+Corollary C01_map_run_never_refuses : forall body, body_arity body ->
+  forall user p inputs d,
+  request_ok p inputs = true -> denote_run body p inputs user = Ok d ->
+  forall e, map_run body p inputs user <> Err e.
+Proof. exact map_run_never_refuses. Qed.
+Print Assumptions C01_map_run_never_refuses.
+
+(* 6. link to the differential check: the observation of the model (Corr/Run_C01.run, with the structural user
+      function) satisfies the executable statement `spec_ok` that the harness applies to the implementation, for
+      EVERY case (the harness evaluates this on samples as `spec_failures_on_model`) *)
+Theorem C01_model_meets_spec : forall c, Run_C01.spec_ok c (Run_C01.run c) = true.
+Proof. exact model_meets_spec. Qed.
+Print Assumptions C01_model_meets_spec.
+
+(* the structural user function of the correspondence harness is such an oracle *)
+Theorem C01_sym_body_arity : body_arity sym_body.
+Proof. exact sym_body_arity. Qed.
+Print Assumptions C01_sym_body_arity.
+
+(* non-vacuity: two functions  x[i] -> y[j, i]  (internal axis BEFORE the mapped axis) and
+   y[:, i], w[k] -> z[i, k]  (':' reduction, outer product), structural bodies; y has shape (2,3), z has shape (3,2) *)
+Example C01_example_request :
+  request_ok ex_p ex_inputs = true /\ is_ok (denote_run sym_body ex_p ex_inputs []) = true
+  /\ option_map (fun d => map (fun x => (fst x, val_shape (snd x))) (d_out d))
+                (match denote_run sym_body ex_p ex_inputs [] with Ok d => Some d | Err _ => None end)
+     = Some [(s "y", Ok [2; 3]); (s "z", Ok [3; 2])].
+Proof. exact ex_request_hyps. Qed.
